@@ -18,10 +18,12 @@ import (
 	"net/http"
 	"strings"
 
+	"github.com/ysugimoto/falco/v2/interpreter"
 	"github.com/ysugimoto/falco/v2/interpreter/context"
 	fhttp "github.com/ysugimoto/falco/v2/interpreter/http"
 	"github.com/ysugimoto/falco/v2/interpreter/value"
 	"github.com/ysugimoto/falco/v2/interpreter/variable"
+	"github.com/ysugimoto/falco/v2/resolver"
 )
 
 func hdrCtx() *context.Context {
@@ -213,7 +215,102 @@ func hdrFieldHandler(args string) string {
 	return "badreq"
 }
 
+// hdrmulti: "<pre-ops on req> | <ops>" - several objects of ONE request, built the way the simulator
+// builds them: a real interpreter, TestProcessInit (bereq from req through createBackendRequest,
+// beresp fresh, resp and obj cloned from it).  The pre-ops run on req (vcl_recv), then the derived
+// objects are rebuilt from the modified req by a second TestProcessInit, then the ops:
+//
+//	g OBJ.T | s OBJ.T V | a OBJ.N V | u OBJ.T      as for hdr, OBJ in req|bereq|beresp|obj|resp
+//	d DST<SRC                                       DST = SRC.Clone()  (resp<obj, resp<beresp, obj<beresp)
+//	@SCOPE                                          go on with the variables of that scope (same context)
+//
+// reply: items of the pre-ops, "|", items of the ops ("ok" for d and @).
+func hdrMultiOps(ctx *context.Context, scope string, ops string) []string {
+	var out []string
+	v, sc := hdrVars(scope, ctx)
+	for _, op := range strings.Split(ops, ";") {
+		f := strings.Fields(op)
+		if len(f) == 0 {
+			continue
+		}
+		if strings.HasPrefix(f[0], "@") {
+			nv, nsc := hdrVars(f[0][1:], ctx)
+			if nv == nil {
+				return append(out, "badreq")
+			}
+			v, sc = nv, nsc
+			out = append(out, "ok")
+			continue
+		}
+		if f[0] == "d" && len(f) == 2 {
+			dst, src, ok := strings.Cut(f[1], "<")
+			if !ok {
+				return append(out, "badreq")
+			}
+			var from *fhttp.Response
+			switch src {
+			case "beresp":
+				from = ctx.BackendResponse
+			case "obj":
+				from = ctx.Object
+			case "resp":
+				from = ctx.Response
+			}
+			if from == nil {
+				return append(out, "badreq")
+			}
+			switch dst {
+			case "obj":
+				ctx.Object = from.Clone()
+			case "resp":
+				ctx.Response = from.Clone()
+			case "beresp":
+				ctx.BackendResponse = from.Clone()
+			default:
+				return append(out, "badreq")
+			}
+			out = append(out, "ok")
+			continue
+		}
+		if len(f) < 2 {
+			return append(out, "badreq")
+		}
+		obj, target, ok := strings.Cut(f[1], ".")
+		if !ok {
+			return append(out, "badreq")
+		}
+		f[1] = target
+		out = append(out, hdrOps(v, sc, obj, strings.Join(f, " ")))
+	}
+	return out
+}
+
+func hdrMultiHandler(args string) string {
+	pre, ops, ok := strings.Cut(args, "|")
+	if !ok {
+		return "badreq"
+	}
+	ip := interpreter.New(context.WithResolver(resolver.NewStaticResolver("main.vcl", "sub vcl_recv {}")))
+	req, err := fhttp.NewRequest("GET", "http://localhost/", http.NoBody)
+	if err != nil {
+		return "initerr"
+	}
+	req.RemoteAddr = "192.0.2.1:11111"
+	if err := ip.TestProcessInit(req); err != nil {
+		return "initerr"
+	}
+	out := hdrMultiOps(ip.VerifStoreContext(), "RECV", pre)
+	// rebuild bereq (and the response objects) from the request as it is now
+	if err := ip.TestProcessInit(req); err != nil {
+		return "initerr"
+	}
+	out = append(out, "|")
+	out = append(out, hdrMultiOps(ip.VerifStoreContext(), "RECV", ops)...)
+	return strings.Join(out, " ")
+}
+
 func init() {
+	register("hdrmulti", hdrMultiHandler)
 	register("hdr", hdrHandler)
 	register("hdrfield", hdrFieldHandler)
 }
